@@ -4,7 +4,7 @@
 From Coq Require Extraction.
 From Coq Require Import ExtrOcamlBasic.
 From TV Require Import Prelude.Str Prelude.PosixPath Prelude.Utf8 Prelude.UnicodeTables
-  Codec.Quote Codec.DateFmt Codec.TrashInfo Logic.OrigLoc Logic.Glob Logic.PyInt Logic.Indexes Logic.Scope Logic.Reply Logic.Calendar.
+  Codec.Quote Codec.DateFmt Codec.TrashInfo Logic.OrigLoc Logic.Glob Logic.PyInt Logic.Indexes Logic.Scope Logic.Reply Logic.Calendar Prog.Prog Cmd.Put.
 Extraction "../driver/model.ml"
   str_eqb split_on dec_of_Z
   basename dirname join2 normpath abspath
@@ -14,4 +14,6 @@ Extraction "../driver/model.ml"
   format_trashinfo read_text parse_path date_of parse_deletion_date maybe_parse_deletion_date
   parse_original_location
   calc_parent_path orig_loc_parent_arg orig_loc_result
-  fnmatchcase py_int parse_indexes matches_path restore_scope parse_reply parse_user_reply older_than dt_lt micros.
+  fnmatchcase py_int parse_indexes matches_path restore_scope parse_reply parse_user_reply older_than dt_lt micros
+  run_oracle put_main is_mutator should_skipped_by_specs path_of_backup_copy create_trashinfo_basename
+  home_trash_dir_path_from_env shrink_user.
